@@ -3,12 +3,13 @@
 
 mod backend;
 mod cfggen;
+mod detrand;
 mod episode;
 mod mmdb;
 mod precedence;
 mod pty;
 
-use episode::{run_episode, Env, Outcome};
+use episode::{Env, Outcome};
 use serde_json::{json, Map, Value};
 use simcore::evidence::{Counters, Evidence};
 use simcore::findings::Findings;
@@ -93,6 +94,146 @@ fn run_worker(batch: u64, start: u64, step: u64, count: u64) -> i32 {
     EXIT_OK
 }
 
+/// Run one episode in a forked copy of this process, on a fresh thread of that copy.
+///
+/// An episode must be a function of its decision tape.  Two things in the dependencies
+/// stand against that: std seeds the keys of every `HashMap` from `getrandom` (made
+/// deterministic in `detrand`, per thread), and cassowary - ratatui's layout solver -
+/// numbers its variables from a process-global counter and hashes those numbers, so that
+/// which of several equally good layouts it returns, and for some constraint sets whether
+/// it terminates at all, depends on everything the process has laid out before.  A fork
+/// taken from the same point gives every episode the same process image to start from.
+fn run_episode(tape: Tape, env: &Env, check_c18: bool) -> Outcome {
+    let mut fds = [0 as libc::c_int; 2];
+    if unsafe { libc::pipe(fds.as_mut_ptr()) } != 0 {
+        eprintln!("harness error: pipe failed");
+        std::process::exit(EXIT_HARNESS);
+    }
+    let pid = unsafe { libc::fork() };
+    if pid < 0 {
+        eprintln!("harness error: fork failed");
+        std::process::exit(EXIT_HARNESS);
+    }
+    if pid == 0 {
+        // never outlive the process that waits for the result (a hung episode is killed
+        // through its waiter)
+        unsafe {
+            libc::prctl(libc::PR_SET_PDEATHSIG, libc::SIGKILL);
+            if libc::getppid() == 1 {
+                libc::_exit(0);
+            }
+            libc::close(fds[0]);
+        }
+        let o = std::thread::scope(|scope| {
+            std::thread::Builder::new()
+                .stack_size(64 << 20)
+                .spawn_scoped(scope, move || episode::run_episode(tape, env, check_c18))
+                .expect("spawn episode thread")
+                .join()
+        });
+        let text = match o {
+            Ok(o) => json!({
+                "stage": o.stage,
+                "violations": o.violations.iter().map(|v| json!({"prop": v.prop, "sig": v.sig, "detail": v.detail})).collect::<Vec<_>>(),
+                "counters": o.counters.to_json(),
+                "frames": o.frames,
+                "abs_hash": o.abs_hash.to_string(),
+                "full_hash": o.full_hash.to_string(),
+                "tape": o.tape,
+                "sample": o.sample,
+                "nontrivial": o.nontrivial,
+            })
+            .to_string(),
+            Err(_) => json!({"harness_panic": true}).to_string(),
+        };
+        let bytes = text.as_bytes();
+        let mut off = 0;
+        while off < bytes.len() {
+            let n = unsafe { libc::write(fds[1], bytes[off..].as_ptr().cast(), bytes.len() - off) };
+            if n <= 0 {
+                break;
+            }
+            off += n as usize;
+        }
+        unsafe { libc::_exit(0) };
+    }
+    unsafe { libc::close(fds[1]) };
+    if std::env::var_os("TUISIM_WORKER").is_some() {
+        // the watchdog of the parent samples and kills the process that runs the episode
+        eprintln!("hb pid={pid}");
+    }
+    let mut text = Vec::new();
+    let mut buf = [0u8; 65536];
+    loop {
+        let n = unsafe { libc::read(fds[0], buf.as_mut_ptr().cast(), buf.len()) };
+        if n <= 0 {
+            break;
+        }
+        text.extend_from_slice(&buf[..n as usize]);
+    }
+    unsafe { libc::close(fds[0]) };
+    let mut status: libc::c_int = 0;
+    unsafe { libc::waitpid(pid, &mut status, 0) };
+    let v: Value = serde_json::from_slice(&text).unwrap_or(Value::Null);
+    if v.is_null() || v["harness_panic"].as_bool() == Some(true) {
+        // the copy died (signal, abort, stack overflow) before it could report
+        let how = if libc::WIFSIGNALED(status) { format!("signal-{}", libc::WTERMSIG(status)) } else { format!("exit-{}", libc::WEXITSTATUS(status)) };
+        let mut counters = Counters::default();
+        counters.add("stage.process-died", 1);
+        return Outcome {
+            stage: "process-died",
+            violations: vec![tracersim::oracle::Violation::new("C17", format!("c17.process-died.{how}"), format!("the process running the episode ended with {how} before the episode finished"))],
+            counters,
+            frames: 0,
+            abs_hash: 0,
+            full_hash: 0,
+            tape: Vec::new(),
+            sample: Value::Null,
+            nontrivial: true,
+        };
+    }
+    let stage: &'static str = match v["stage"].as_str().unwrap_or("") {
+        "tui" => "tui",
+        "no-tui" => "no-tui",
+        "cli-rejected" => "cli-rejected",
+        "config-rejected" => "config-rejected",
+        "config-panicked" => "config-panicked",
+        "terminal-error" => "terminal-error",
+        _ => "other",
+    };
+    let mut counters = Counters::default();
+    if let Some(m) = v["counters"].as_object() {
+        for (k, n) in m {
+            counters.add(k, n.as_u64().unwrap_or(0));
+        }
+    }
+    Outcome {
+        stage,
+        violations: v["violations"]
+            .as_array()
+            .map(|a| {
+                a.iter()
+                    .map(|x| {
+                        let prop: &'static str = match x["prop"].as_str().unwrap_or("") {
+                            "C16" => "C16",
+                            "C18" => "C18",
+                            _ => "C17",
+                        };
+                        tracersim::oracle::Violation::new(prop, x["sig"].as_str().unwrap_or("").to_string(), x["detail"].as_str().unwrap_or("").to_string())
+                    })
+                    .collect()
+            })
+            .unwrap_or_default(),
+        counters,
+        frames: v["frames"].as_u64().unwrap_or(0),
+        abs_hash: v["abs_hash"].as_str().and_then(|s| s.parse().ok()).unwrap_or(0),
+        full_hash: v["full_hash"].as_str().and_then(|s| s.parse().ok()).unwrap_or(0),
+        tape: v["tape"].as_array().map(|a| a.iter().filter_map(|x| x.as_u64().map(|x| x as u32)).collect()).unwrap_or_default(),
+        sample: v["sample"].clone(),
+        nontrivial: v["nontrivial"].as_bool().unwrap_or(false),
+    }
+}
+
 /// Run one episode in a child process (the parent never draws a frame itself: an episode
 /// may hang, see the known finding `c17.hang.layout-solver`).  `None` when the child did
 /// not finish within `limit` or its output could not be read.
@@ -163,6 +304,8 @@ fn run_check(prop: &str, tier: &str, batch: u64) -> i32 {
         last_progress: std::time::Instant,
         last_hb: String,
         done: bool,
+        /// The forked copy of the worker that runs the current episode.
+        episode_pid: Option<i32>,
     }
     let hang_limit = std::time::Duration::from_secs(std::env::var("VERIF_TUI_HANG_SECS").ok().and_then(|s| s.parse().ok()).unwrap_or(8));
     let spawn = |w: u64, generation: u64, start: u64, count: u64, tx: std::sync::mpsc::Sender<Msg>| -> Result<std::process::Child, String> {
@@ -201,7 +344,7 @@ fn run_check(prop: &str, tier: &str, batch: u64) -> i32 {
         }
         match spawn(w, 0, w, count, tx.clone()) {
             Ok(child) => {
-                slots.insert(w, Slot { child, next_start: w, remaining: count, current: None, generation: 0, last_progress: std::time::Instant::now(), last_hb: String::new(), done: false });
+                slots.insert(w, Slot { child, next_start: w, remaining: count, current: None, generation: 0, last_progress: std::time::Instant::now(), last_hb: String::new(), done: false, episode_pid: None });
             }
             Err(e) => {
                 eprintln!("harness error: cannot start worker: {e}");
@@ -241,8 +384,12 @@ fn run_check(prop: &str, tier: &str, batch: u64) -> i32 {
             }
             Ok(Msg::Heartbeat(w, g, line)) => {
                 if let Some(slot) = slots.get_mut(&w).filter(|s| s.generation == g) {
-                    slot.last_progress = std::time::Instant::now();
-                    slot.last_hb = line;
+                    if let Some(p) = line.strip_prefix("hb pid=") {
+                        slot.episode_pid = p.trim().parse().ok();
+                    } else {
+                        slot.last_progress = std::time::Instant::now();
+                        slot.last_hb = line;
+                    }
                 }
             }
             Ok(Msg::Eof(w, g)) => {
@@ -263,7 +410,7 @@ fn run_check(prop: &str, tier: &str, batch: u64) -> i32 {
             let (i, seed) = slot.current.take().expect("current episode");
             // where is it stuck?  sample the worker's stack before killing it
             let stack = Command::new("gdb")
-                .args(["-p", &slot.child.id().to_string(), "-batch", "-ex", "bt 60"])
+                .args(["-p", &slot.episode_pid.map_or_else(|| slot.child.id().to_string(), |p| p.to_string()), "-batch", "-ex", "thread apply all bt 60"])
                 .stdin(Stdio::null())
                 .stderr(Stdio::null())
                 .output()
@@ -281,6 +428,9 @@ fn run_check(prop: &str, tier: &str, batch: u64) -> i32 {
                 "unknown"
             };
             slot.last_hb = format!("{} | stuck in: {place}", slot.last_hb);
+            if let Some(p) = slot.episode_pid.take() {
+                unsafe { libc::kill(p, libc::SIGKILL) };
+            }
             let _ = slot.child.kill();
             let _ = slot.child.wait();
             hangs.push((i, seed, slot.last_hb.clone()));
@@ -360,10 +510,13 @@ fn run_check(prop: &str, tier: &str, batch: u64) -> i32 {
         }
     }
     let mut known: BTreeMap<String, u64> = BTreeMap::new();
+    // one episode seed per observed known finding (`tuisim one <seed>` runs it again)
+    let mut known_seeds: BTreeMap<String, String> = BTreeMap::new();
     let mut new: Vec<(String, u64, String, u64)> = Vec::new();
     for (sig, (seed, detail, n)) in &found {
         if let Some(f) = findings.matching(prop, sig) {
             *known.entry(f.signature.clone()).or_insert(0) += n;
+            known_seeds.entry(sig.clone()).or_insert_with(|| seed.to_string());
         } else {
             new.push((sig.clone(), *seed, detail.clone(), *n));
         }
@@ -444,6 +597,7 @@ fn run_check(prop: &str, tier: &str, batch: u64) -> i32 {
     extra.insert("runs_per_hour".into(), json!((lines.len() as f64 / wall.max(1e-9) * 3600.0) as u64));
     extra.insert("determinism_rechecks".into(), json!({"re_executed": rechecked, "diverged": diverged}));
     extra.insert("known_findings_observed".into(), json!(known));
+    extra.insert("known_findings_first_episode_seed".into(), json!(known_seeds));
     extra.insert("replays".into(), json!(replays));
     if prop == "C16" {
         extra.insert("precedence_cases".into(), json!(precedence_cases));
@@ -607,6 +761,7 @@ fn run_replay(prop: &str, path: &str) -> i32 {
 }
 
 fn main() {
+    detrand::enable();
     unsafe {
         libc::mallopt(libc::M_MMAP_THRESHOLD, 1 << 30);
         libc::mallopt(libc::M_TRIM_THRESHOLD, 1 << 30);
